@@ -1036,14 +1036,15 @@ func TestExportHistory(t *testing.T) {
 		if err != nil {
 			failRT(rt, "export-history", k.c, bEx, buf, "import of a kept blob failed: %v", err)
 		}
-		for i := range buf {
-			buf[i] ^= 0xA5
+		// a later import of ANOTHER blob must not change what this import returned
+		if other := hist[(rapid.IntRange(0, n-1).Draw(rt, "other-import"))]; true {
+			document.UnmarshalVerifiableDoc(bytes.Clone(other.blobs[bEx]))
 		}
 		if d := sameFiles(k.c, doc); d != "" {
-			failRT(rt, "import-aliases-input", k.c, bEx, k.blobs[bEx], "the imported document changed when the caller overwrote the blob it was imported from: %s", d)
+			failRT(rt, "import-history", k.c, bEx, k.blobs[bEx], "the imported document changed when another blob was imported afterwards: %s", d)
 		}
 		if d := sameEvidence(k.c.Ev, bundle); d != "" {
-			failRT(rt, "import-aliases-input", k.c, bEx, k.blobs[bEx], "the imported evidence changed when the caller overwrote the blob it was imported from: %s", d)
+			failRT(rt, "import-history", k.c, bEx, k.blobs[bEx], "the imported evidence changed when another blob was imported afterwards: %s", d)
 		}
 		// exporting the same document once more: the new blobs import to the same content (byte-identical
 		// output is not demanded - the property speaks about what an import yields), and the blobs handed
